@@ -1,0 +1,19 @@
+//! Verification hook (compiled only with `--cfg decaf377_verif`): lets a test substitute the
+//! prover-supplied hint pair of `FqVarExtension::isqrt`, i.e. play a dishonest prover.
+extern crate std;
+
+use crate::Fq;
+use std::cell::Cell;
+
+std::thread_local! {
+    static ISQRT_HINT: Cell<Option<(bool, Fq)>> = Cell::new(None);
+}
+
+/// Replace the hint of every following `isqrt` call on this thread (None = honest prover).
+pub fn set_isqrt_hint(hint: Option<(bool, Fq)>) {
+    ISQRT_HINT.with(|h| h.set(hint));
+}
+
+pub(crate) fn isqrt_hint(was_square: bool, y: Fq) -> (bool, Fq) {
+    ISQRT_HINT.with(|h| h.get()).unwrap_or((was_square, y))
+}
